@@ -331,7 +331,7 @@ def run_c02(run, thorough=False):
 
 # ------------------------------------------------------------------ C03
 
-REL_RE = re.compile(r"^\[?(?P<lab>[A-Za-z@][\w@]*)(?P<k>[+-]\d+)?,PCR\]?$")
+REL_RE = re.compile(r"^\[?(?P<lab>[A-Za-z@][\w@]*)(?:(?P<k>[+-]\d+)|(?P<op2>[+-])(?P<lab2>[A-Za-z@][\w@]*))?,PCR\]?$")
 BR_RE = re.compile(r"^(?P<lab>[A-Za-z@][\w@]*)(?P<k>[+-]\d+)?$")
 
 
@@ -376,7 +376,13 @@ def run_c03(run, thorough=False):
                 if (row.is_short_branch or row.is_long_branch):
                     todo.append((c, im, i, st, None, "branch-nonlabel"))
                 continue
-            todo.append((c, im, i, st, syms[m.group("lab")] + int(m.group("k") or 0), kind))
+            extra = int(m.group("k") or 0)
+            if kind == "pcr" and m.group("lab2"):
+                # label +- label: the second label contributes its ADDRESS
+                if m.group("lab2") not in syms or syms[m.group("lab2")] is None or m.group("lab2") in equ_syms:
+                    continue
+                extra = syms[m.group("lab2")] if m.group("op2") == "+" else -syms[m.group("lab2")]
+            todo.append((c, im, i, st, syms[m.group("lab")] + extra, kind))
     decs = oracle_asm.decode_all([st["bytes"] for (c, im, i, st, tgt, kind) in todo])
     for (c, im, i, st, tgt, kind), d in zip(todo, decs):
         same = fam_asm_key({"lines": c["lines"], "files": None}) not in bad
@@ -455,6 +461,19 @@ def run_c04(run, thorough=False):
                 body = [" %s %s" % (mn, t), " NOP", "L NOP"] if late else ["L NOP", " NOP", " %s %s" % (mn, t)]
                 cases.append({"lines": gen_asm.L(*([" ORG " + org] + body)), "tag": "label-expr",
                               "meta": {"mn": mn, "pos": pos, "k": k, "stmt": 1 if late else 3, "label": True}})
+    # a label on the very first statement of the source (statement index 0, no ORG in front)
+    for mn, t, pos, k in (("LDX", "#L+3", "imm", 3), ("LDX", "L+2", "mem", 2), ("JMP", "L+$300", "mem", 0x300), ("LDD", "#L+$1234", "imm", 0x1234),
+                          ("LDX", "#2+L", "imm", 2)):
+        cases.append({"lines": gen_asm.L("L NOP", " NOP", " NOP", " %s %s" % (mn, t), " NOP"), "tag": "label-expr",
+                      "meta": {"mn": mn, "pos": pos, "k": k, "stmt": 3, "label": True}})
+        cases.append({"lines": gen_asm.L("L %s %s" % (mn, t), " NOP", " NOP", " NOP"), "tag": "label-expr",
+                      "meta": {"mn": mn, "pos": pos, "k": k, "stmt": 0, "label": True}})
+    # label - constant below address zero: reduced modulo 65536 (fix 1477b47)
+    for org, k in (("$0", 20), ("$0", 300), ("$10", 20000), ("$10", 65535)):
+        for late in (False, True):
+            body = [" LDX #L-%d" % k, " NOP", "L NOP"] if late else ["L NOP", " NOP", " LDX #L-%d" % k]
+            cases.append({"lines": gen_asm.L(*([" ORG " + org] + body)), "tag": "label-expr",
+                          "meta": {"mn": "LDX", "pos": "imm", "k": -k, "stmt": 1 if late else 3, "label": True}})
     # label op label (both replaced by their addresses)
     for org in ("$1000", "$0"):
         for mn, t, pos, opc in (("LDX", "#L2-L1", "imm", "-"), ("LDD", "#L1+L2", "imm", "+"), ("LDX", "#L1-L2", "imm", "-"), ("LDA", "L2-L1", "mem", "-")):
@@ -779,6 +798,16 @@ def c18_programs(rnd, n):
             if l not in lab_at.values():
                 lines.append("%s NOP" % l)
         out.append({"lines": gen_asm.L(*lines), "tag": "c18", "meta": {"org": org, "labels": labels}})
+    # directed: moves that put a label+n / label-n reference, or the last byte of the program, on the edge of the address space
+    labels = ["LA", "LB", "LOOP", "DATA1", "Q9"]
+    tail = ["%s NOP" % l for l in labels[1:]]
+    for ref, off in (("LA+4", 4), ("LA-1", -1), ("LA", 0), ("LA+1", 1)):
+        # LDY #ref is 4 bytes, LDX #ref 3 bytes, 4 NOPs, then LA (5 data bytes) as the last statement: LA = org + 11
+        lines = [" ORG $3000", " LDY #%s" % ref, " LDX #%s" % ref] + tail + ["LA FCB 1,2,3,4,5"]
+        for edge in (0xFFFF, 0xFFFE, 0xFF00):
+            D = edge - (0x300B + off)
+            if 0x300B + D + 4 <= 0xFFFF:
+                out.append({"lines": gen_asm.L(*lines), "tag": "c18-edge", "meta": {"org": 0x3000, "labels": labels, "D": D}})
     return out
 
 
@@ -817,6 +846,7 @@ def run_c18(run, thorough=False):
         D = rnd.choice([1, 2, 0x10, 0x100, 0x1000, -0x100, 0x7F, 0x3001])
         if not (0x100 <= org + D <= 0xB000):
             D = 0x100
+        D = c["meta"].get("D", D)
         shifted = [l.replace("ORG $%04X" % org, "ORG $%04X" % (org + D)) for l in lines]
         names = c["meta"]["labels"]
         new = ["ZED", "K2", "Lnew", "M1q", "W"] if rnd.random() < 0.85 else ["ZED", "K2", "Lnew", "M_1", "@W"]
